@@ -1,13 +1,85 @@
-/- Driver for the rpc engine (ops whose name starts with `r`). -/
+/- Driver for the rpc engine (ops `renc`, `rdec`). -/
 import Driver.Common
+import Discv5Model.Model.Rpc
 namespace Discv5.Driver
+open Discv5.Rpc Discv5.Rlp
 
 structure RpcSt where
   dummy : Unit := ()
 
+/-- `a,b,c` (or `-` for the empty list). -/
+def commaList (s : String) : List String := if s == "-" then [] else s.splitOn ","
+
+/-- Message syntax (shared with the harness):
+`ping:ID:SEQ`, `pong:ID:SEQ:4|6:IP:PORT`, `findnode:ID:D,D,…`, `nodes:ID:TOTAL:REC,REC,…`,
+`talkreq:ID:PROTO:REQ`, `talkresp:ID:RESP`. -/
+def parseMsg (s : String) : Option Message :=
+  match fields s with
+  | ["ping", id, seq] => some ⟨hex! id, .ping (nat! seq)⟩
+  | ["pong", id, seq, fam, ip, port] =>
+      some ⟨hex! id, .pong (nat! seq) (if fam == "4" then .v4 (hex! ip) else .v6 (hex! ip)) (nat! port)⟩
+  | ["findnode", id, ds] => some ⟨hex! id, .findNode ((commaList ds).map nat!)⟩
+  | ["nodes", id, total, recs] => some ⟨hex! id, .nodes (nat! total) ((commaList recs).map hex!)⟩
+  | ["talkreq", id, p, r] => some ⟨hex! id, .talkReq (hex! p) (hex! r)⟩
+  | ["talkresp", id, r] => some ⟨hex! id, .talkResp (hex! r)⟩
+  | _ => none
+
+def showList (xs : List String) : String := if xs.isEmpty then "-" else ",".intercalate xs
+
+def showMsg (m : Message) : String :=
+  let id := hexOrDash m.id
+  match m.body with
+  | .ping seq => s!"ping:{id}:{seq}"
+  | .pong seq ip port =>
+      let (fam, b) := match ip with | .v4 b => ("4", b) | .v6 b => ("6", b)
+      s!"pong:{id}:{seq}:{fam}:{hexOrDash b}:{port}"
+  | .findNode ds => s!"findnode:{id}:{showList (ds.map toString)}"
+  | .nodes total recs => s!"nodes:{id}:{total}:{showList (recs.map hexOrDash)}"
+  | .talkReq p r => s!"talkreq:{id}:{hexOrDash p}:{hexOrDash r}"
+  | .talkResp r => s!"talkresp:{id}:{hexOrDash r}"
+
+/-- Sentinel returned for an item the harness gave no oracle answer for. -/
+def oracleMiss : Bytes := [0xde, 0xad]
+
+/-- `ITEM=RESULT,ITEM=RESULT,…` (or `-`): the answers of the real record decoder; RESULT is the
+canonical re-encoding or `bad`. -/
+def parseOracle (s : String) : List (Bytes × Option Bytes) :=
+  (commaList s).filterMap fun e =>
+    match e.splitOn "=" with
+    | [item, res] => some (hex! item, if res == "bad" then none else some (hex! res))
+    | _ => none
+
+def oracleFn (tbl : List (Bytes × Option Bytes)) : Bytes → Option Bytes := fun item =>
+  match tbl.find? (fun e => e.1 == item) with
+  | some e => e.2
+  | none => some oracleMiss
+
+/-- `renc MSG` → encoded bytes. -/
+def renc : List String → String
+  | [msg] =>
+    match parseMsg msg with
+    | some m => toHex (encode m)
+    | none => "bad-op"
+  | _ => "bad-op"
+
+/-- `rdec DATA ORACLE` → `ok MSG` / `err:kind` / `panic`. -/
+def rdec : List String → String
+  | [data, oracle] =>
+    match decode (oracleFn (parseOracle oracle)) (hex! data) with
+    | .ok m =>
+      let missed := match m.body with
+        | .nodes _ recs => recs.any (· == oracleMiss)
+        | _ => false
+      if missed then "oracle-miss" else s!"ok {showMsg m}"
+    | .err e => s!"err:{e.toString}"
+    | .panic => "panic"
+  | _ => "bad-op"
+
 /-- One op of the rpc engine: full token list (op name first) → new state and reply line. -/
 def rpcStep (st : RpcSt) (toks : List String) : RpcSt × String :=
   match toks with
+  | "renc" :: args => (st, renc args)
+  | "rdec" :: args => (st, rdec args)
   | _ => (st, "bad-op")
 
 end Discv5.Driver
